@@ -352,7 +352,7 @@ def run(tier):
         rep.count("sites discharged by %s" % m, n)
     # the release-like MIR has no overflow Asserts: about half the sites
     rep.floor("panic-class sites enumerated", len(sites), 120 if P.facts.profile == "dev" else 60)
-    recursion(P, rep, reach)
+    recursion(P, rep, reach, g)
     loops(P, rep, reach, g)
     allocation(P, rep)
     borrows(P, rep, reach)
@@ -505,7 +505,7 @@ def variant_excluded_at(P, fn, bb, term, ty, panicking):
 
 
 # ------------------------------------------------------------------------------------------------ 2. recursion
-def recursion(P, rep, reach):
+def recursion(P, rep, reach, g=None):
     cg = P.callgraph()
     comps = [c for c in P.sccs(reach) if len(c) > 1 or c[0] in cg[c[0]]]
     rep.count("call-graph cycles in reachable code", len(comps))
@@ -517,11 +517,17 @@ def recursion(P, rep, reach):
         if kind is None and all(c.startswith("document::document::__parse_") for c in comp):
             # the generated recursive-descent parser: bounded iff every call of the line parser is behind a nesting guard
             okg, whyg = parser_entry_guarded(P)
-            kind, why = ("guard" if okg else None), whyg
-        if kind is None and all("as std::fmt::Display>::fmt" in c or "as std::fmt::Debug>::fmt" in c or "as std::clone::Clone>::clone" in c for c in comp):
+            okc, whyc = guard_covers_grammar(P, g) if g is not None else (False, "grammar not readable")
+            kind, why = ("guard" if okg and okc else None), (whyg if not okg else (whyg + "; " + whyc if okc else whyc))
+        if kind is None and not all(c.startswith("document::document::") for c in comp) and not nonstructural_calls(P, comp):
+            # every call back into the cycle goes down into a part of the value at hand (printing, cloning, comparing a parsed
+            # expression): the depth is the depth of that value, which the guard in front of the parser must have limited
             okg, whyg = parser_entry_guarded(P)
-            if okg:
-                kind, why = "structural", "structural recursion over a parsed expression, whose depth is bounded by the nesting guard in front of the parser"
+            okc, whyc = guard_covers_grammar(P, g) if g is not None else (False, "grammar not readable")
+            if okg and okc:
+                kind, why = "structural", "recursion over the parts of a parsed expression, whose depth the guard in front of the parser limits (%s)" % whyc
+            else:
+                why = "recursion over the parts of a parsed expression, but its depth is not limited: %s" % (whyg if not okg else whyc)
         rep.ob("C16.recursion|%s" % "+".join(comp), kind is not None,
                "cycle %s is bounded: %s" % (name, why) if kind else
                "cycle %s has no depth guard: %s" % (name, why), detail={"cycle": comp})
@@ -670,8 +676,63 @@ def cycle_guard(P, comp):
     return None, "no function on all cycles compares an integer parameter or context field with a constant, fails beyond it and passes it on incremented"
 
 
-def nonstructural_calls(P, comp):
-    """recursive calls none of whose arguments is a strict part of one of the caller's parameters"""
+def depth_tokens(g):
+    """first characters of every grammar token that adds a level to the expression tree: infix and prefix operators (one level per
+    operator, nested or chained) and the opening token of every atom that contains an expression (parentheses, function call)"""
+    out = {}
+    for r in g.prec_table("expr"):
+        if r["kind"] in ("infix", "prefix"):
+            for tok in r["tokens"]:
+                out.setdefault(tok[0], set()).add("%s operator %s" % (r["kind"], tok))
+        elif r["kind"] == "atom" and any(e[1] == ("call", "expr") for e in r["elems"]):
+            lits = [e[1][1] for e in r["elems"] if e[1][0] == "lit"]
+            if lits:
+                out.setdefault(lits[0][0], set()).add("opening %s" % lits[0])
+    return out
+
+
+def guard_chars(P, gk):
+    """characters a guard function tells apart: constants its code (closures included) switches on or compares a char with"""
+    out = set()
+    for k in P.body:
+        if k != gk and not k.startswith(gk + "::{closure"):
+            continue
+        b = P.body[k]
+        for bl in b["blocks"]:
+            t = bl["term"]
+            if t["k"] == "switch":
+                pl = MU.op_place(t["discr"])
+                if pl is not None and P.tys(k, b["locals"][pl["local"]]["ty"]) == "char":
+                    for v, tb in t["targets"]:
+                        out.add(chr(int(v)))
+            for st in bl["stmts"]:
+                if st["k"] == "assign" and st["rv"]["k"] == "bin" and st["rv"]["op"] in ("Eq", "Ne"):
+                    for o in (st["rv"]["l"], st["rv"]["r"]):
+                        if "const" in o and P.tys(k, o["const"]["ty"]) == "char" and "int" in o["const"]:
+                            out.add(chr(int(o["const"]["int"])))
+    return out
+
+
+def guard_covers_grammar(P, g):
+    guards = nesting_guards(P)
+    if not guards:
+        return False, "no guard in front of the parser"
+    toks = depth_tokens(g)
+    worst = None
+    for gk in sorted(guards):
+        gc = guard_chars(P, gk)
+        missing = sorted(c for c in toks if c not in gc)
+        if missing:
+            worst = "%s does not look at %s (%s): levels built with it are not limited" % (gk.split("::")[-1], ", ".join("`%s`" % c for c in missing[:6]),
+                                                                                            "; ".join(sorted(toks[missing[0]]))[:60])
+    if worst:
+        return False, worst
+    return True, "every token with which the grammar adds a level to an expression tree (%d first characters: nesting and chaining) is among the characters the guard counts" % len(toks)
+
+
+def classify_recursive_calls(P, comp):
+    """-> [(caller, callee short name, 'descend' | 'same' | 'other', callee keys)] for every call from the component into it:
+    descend = some argument is a strict part of one of the caller's data parameters; same = a data parameter is handed on as it is"""
     out = []
     TRANSP = {"<std::boxed::Box<T, A> as std::ops::Deref>::deref", "<std::boxed::Box<T, A> as std::convert::AsRef<T>>::as_ref",
               "<std::rc::Rc<T, A> as std::ops::Deref>::deref", "<std::vec::Vec<T, A> as std::ops::Deref>::deref"}
@@ -679,19 +740,55 @@ def nonstructural_calls(P, comp):
         b = P.body[k]
         ch = MU.Chaser(b, transparent=TRANSP)
         for bb, t, name, tg in P.call_sites(k):
-            if not any(x in comp for x in tg):
+            into = [x for x in tg if x in comp]
+            if not into:
                 continue
-            structural = False
+            kind = "other"
             for a in t["args"]:
-                r = ch.root(a)
-                if r[0] is not None and 1 <= r[0] <= b["arg_count"] and any(e["k"] in ("field", "downcast") for e in r[1]):
-                    # a part of a parameter that is itself data (not the shared context the recursion carries along)
-                    pty = P.tys(k, b["locals"][r[0]]["ty"])
-                    if not re.search(r"Context\b|dyn |Formatter", pty):
-                        structural = True
-            if not structural:
-                out.append("%s -> %s" % (k.split("::")[-1], (MU.callee_names(t)[1]).split("::")[-1]))
-    return sorted(set(out))
+                r = MU.root_through_tuples(ch, a)
+                if r[0] is None or not (1 <= r[0] <= b["arg_count"]):
+                    continue
+                pty = P.tys(k, b["locals"][r[0]]["ty"])
+                if re.search(r"Context\b|dyn |Formatter", pty):
+                    continue          # the shared context / sink the recursion carries along is not the data it recurses on
+                tt = P.ty(k, b["locals"][r[0]]["ty"])
+                while tt["k"] == "ref" or (tt["k"] == "adt" and tt["path"] in ("std::boxed::Box", "std::rc::Rc") and tt.get("args")):
+                    tt = P.ty(k, tt["to"] if tt["k"] == "ref" else tt["args"][0])
+                if not (tt["k"] == "adt" and P.lib.adts.get(tt["path"], {}).get("local")):
+                    continue          # counters, tables of the standard library, ...: not the value the recursion walks over
+                if any(e["k"] in ("field", "downcast") for e in r[1]):
+                    kind = "descend"
+                    break
+                kind = "same"
+            out.append((k, MU.callee_names(t)[1].split("::")[-1], kind, into))
+    return out
+
+
+def nonstructural_calls(P, comp):
+    """calls back into the component that neither go down into a part of a data parameter nor hand one on as it is — or, if all do,
+    a cycle made of hand-ons only (it would never get smaller)"""
+    cl = classify_recursive_calls(P, comp)
+    out = sorted({"%s -> %s" % (k.split("::")[-1], nm) for k, nm, kind, into in cl if kind == "other"})
+    if out:
+        return out
+    same = {}
+    for k, nm, kind, into in cl:
+        if kind == "same":
+            same.setdefault(k, set()).update(into)
+    # is the graph of 'same' edges acyclic?
+    state = {}
+
+    def dfs(v):
+        state[v] = 1
+        for w in same.get(v, ()):
+            if state.get(w) == 1 or (w not in state and dfs(w)):
+                return True
+        state[v] = 2
+        return False
+    for v in list(same):
+        if v not in state and dfs(v):
+            return ["a cycle of calls that hand the same value on without going into a part of it (through %s)" % v.split("::")[-1]]
+    return []
 
 
 def work_budget(P, comp):
